@@ -301,13 +301,17 @@ def replay_file(ezdrive, path, nproc=None, env=None):
     if env: e.update(env)
     r = subprocess.run(["bash", "-c", pipe], cwd=work, stdout=subprocess.PIPE, stderr=subprocess.STDOUT, text=True, env=e)
     fails, cases = [], 0
+    digests = {}
     for f in sorted(glob.glob(os.path.join(work, "out.x*"))):
         ok = False
         for line in open(f):
             if not line.strip(): continue
             j = json.loads(line)
             if j.get("summary"): cases += j["cases"]; ok = True
+            elif "digest" in j: digests[j["key"]] = (j["digest"], j["len"], j["n"])
             else: fails.append(j)
         if not ok: raise Infra("replay process died (%s): %s" % (f, r.stdout[-500:]))
     shutil.rmtree(work, ignore_errors=True)
+    if env and env.get("EZ_EMIT_DIGEST"):
+        return cases, fails, digests
     return cases, fails
